@@ -503,3 +503,120 @@ def run_discard(chk, fns, helpers=None, rule="R-DISCARD-LSB-CHECKED", floor=3):
                    detail="`%s` discards low bits that no test on this path has shown to be zero: a misaligned displacement is silently rounded" % " ".join(fn.text(i).split())[:70],
                    key="discardlsb|%s|%d" % (fn.name.split("::")[-1], n))
     chk.floor(rule + ":shifts", n, floor)
+
+
+# ---------------------------------------------------------------------------------------------------------------------------
+def _has_label_offset(fn, e, tainted):
+    for j in fn.walk(e):
+        y = fn.e(j)
+        if y is None:
+            continue
+        if y["k"] == "mcall" and y.get("cn") == "offset" and "LabelEntry" in (y.get("cls") or ""):
+            return True
+        if y["k"] == "ref" and y.get("did") in tainted:
+            return True
+    return False
+
+
+def label_tainted(fn):
+    """dids of the locals (any width) that receive a value computed from a bound label's offset()"""
+    t = set()
+    for _ in range(6):
+        n0 = len(t)
+        for i, x in fn.ex.items():
+            if x["k"] == "decl":
+                for v in x["vars"]:
+                    if v.get("init") and _has_label_offset(fn, v["init"], t):
+                        t.add(v["did"])
+            elif x["k"] == "binop" and x["op"] in ("=", "+=", "-="):
+                l = fn.e(fn.strip(x["lhs"]))
+                if l and l["k"] == "ref" and l.get("dk") == "local" and _has_label_offset(fn, x["rhs"], t):
+                    t.add(l["did"])
+        if len(t) == n0:
+            break
+    return t
+
+
+def run_label_delta(chk, fns, rule="R-LABEL-DELTA-NARROW", floor=3):
+    chk.rule(rule, "a distance computed from a bound label's offset() (64 bits) reaches a narrower field only when it is known to fit: an explicit "
+                   "cast to <= 32 bits of a label-derived 64-bit variable, and emit_value_le/be of one with a size that is not the constant 8, are "
+                   "dominated by a range predicate over that variable (is_int_n / is_encodable_offset_* / constant comparison) on the passing "
+                   "edge; a cast applied directly to the label arithmetic has no variable to test and is accepted only in the declared "
+                   "modulo-2^32 form `(...) & 0xFFFFFFFF` (buffer positions of one section are below 2^31 apart)")
+    n = 0
+    for fn in fns:
+        taint = label_tainted(fn)
+        wide_t = set()
+        m = None
+        short = fn.name.replace("asmjit::", "")
+
+        def state(i):
+            nonlocal m
+            if m is None:
+                m = analysis(fn)
+            return m.before(i) or frozenset()
+        k = 0
+        for i, x in sorted(fn.ex.items()):
+            if x["k"] == "cast" and x.get("ck") in ("functional", "static", "cstyle", "c"):
+                db = bits_of(x.get("ty"))
+                if not db or db >= 64:
+                    continue
+                sub = x["sub"]
+                s = fn.e(sub)
+                while s and s["k"] == "paren":
+                    sub = s["sub"]
+                    s = fn.e(sub)
+                if not s or (bits_of(s.get("ty")) or 0) < 64:
+                    continue
+                w = wide_root(fn, sub)
+                masked_var = None
+                if w is None and s["k"] == "binop" and s["op"] == "&":
+                    for a, b in ((s["lhs"], s["rhs"]), (s["rhs"], s["lhs"])):
+                        if wide_root(fn, a) is not None:
+                            masked_var = wide_root(fn, a)
+                            mk = fn.e(fn.strip(b))
+                            break
+                if w is not None or masked_var is not None:
+                    wv = w if w is not None else masked_var
+                    if wv not in taint:
+                        continue
+                    n += 1
+                    ok = ("ranged", wv) in state(i)
+                    chk.ob(rule, "%s|cast#%d" % (short, k), ok, loc=fn.loc(i),
+                           detail="`%s` narrows a label distance to %d bits without a dominating range test of the variable: a distance that "
+                                  "does not fit is silently truncated" % (" ".join(fn.text(i).split())[:60], db), key="labelnarrow|%s|%d" % (short, k))
+                    k += 1
+                    continue
+                direct = any((fn.e(j) or {}).get("k") == "mcall" and fn.e(j).get("cn") == "offset" and "LabelEntry" in (fn.e(j).get("cls") or "") for j in fn.walk(sub))
+                if not direct:
+                    continue
+                n += 1
+                modular = False
+                if s["k"] == "binop" and s["op"] == "&":
+                    for b in (s["rhs"], s["lhs"]):
+                        mk = fn.e(fn.strip(b))
+                        cv = mk.get("cv") if mk else None
+                        if isinstance(cv, str) and cv.isdigit():
+                            cv = int(cv)
+                        if cv == (1 << db) - 1 and db == 32:
+                            modular = True
+                chk.ob(rule, "%s|cast#%d" % (short, k), modular, loc=fn.loc(i),
+                       detail="`%s` narrows label arithmetic to %d bits in place: there is no range test (and no variable one could apply to), "
+                              "so an addend/distance that does not fit wraps silently" % (" ".join(fn.text(i).split())[:70], db),
+                       key="labelnarrow|%s|%d" % (short, k))
+                k += 1
+            elif x["k"] == "mcall" and x.get("cn") in ("emit_value_le", "emit_value_be") and len(x.get("args", [])) == 2:
+                v, sz = x["args"]
+                if not _has_label_offset(fn, v, taint):
+                    continue
+                szx = fn.e(fn.strip(sz))
+                if szx is not None and szx.get("cv") == 8:
+                    continue
+                n += 1
+                w = wide_root(fn, v)
+                ok = w is not None and ("ranged", w) in state(i)
+                chk.ob(rule, "%s|emit_value#%d" % (short, k), ok, loc=fn.loc(i),
+                       detail="`%s` writes a label distance with a run-time size and no dominating range test: with a 1/2/4-byte size a larger "
+                              "distance is silently truncated" % " ".join(fn.text(i).split())[:60], key="labelnarrow|%s|%d" % (short, k))
+                k += 1
+    chk.floor(rule + ":sinks", n, floor)
